@@ -29,6 +29,7 @@ TECHNIQUE += '; contract of semantics_call with falsy action results and falsy r
 LEVEL_TEXT += " Added clause: whatever the action returns (0, '', [], None) is the rule value; without an action the value itself."
 TECHNIQUE += '; the semantics object stored on a cached model is part of the cache key (= C10.R1 stored-parameter clause)'
 LEVEL_TEXT += ' Added clause: the actions that run are those of the object supplied to this compile().'
+LEVEL_TEXT += ' Added clauses (rounds 9-11): what rule_call raises is the object it memoized (FailedSemantics converted, foreign exceptions untouched), decided by interpretation; the bind-cache key tells equal-but-distinct arguments apart; the optimizer keeps rule invocations.'
 TECHNIQUE += '; foreign exceptions pass the negative lookahead (= C01.R7b)'
 TECHNIQUE += '; store-what-you-raise decided by interpreting rule_call with scripted failing body / action (exception objects with identity); decorator consumption by interpreting Rule.__post_init__; calls keep their rule (R11 = C01.R13)'
 TECHNIQUE += '; the bind-cache key tells equal-but-distinct arguments apart (R12, BoundCallable._arg_key interpreted on 1 / True / 1.0, equal lists and dicts)'
